@@ -485,6 +485,8 @@ def run_impl(case):
                 raised.append(r[1])
 
         def flush():
+            if not s.torn:
+                out['events'].append(['f'])
             for _ in range(20000):
                 if s.torn:
                     return
@@ -580,6 +582,8 @@ def coq_event(ev):
         return '(EClient %s)' % C.coq_bytes(ev[1])
     if ev[0] == 'ceof':
         return 'EClientEof'
+    if ev[0] == 'f':
+        return 'EFlush'
     if ev[0] == 'u':
         return '(EUp %d %s)' % (ev[1], C.coq_bytes(ev[2]))
     return '(EUpEof %d)' % ev[1]
